@@ -263,3 +263,144 @@ def render(lines, rng=None, ops=(), eol="\n", conservative=True):
         emit_tokens(toks, comment, stem)
         i += 1
     return lay
+
+
+# ---------------------------------------------------------------------------------------------
+# fixed-form twin of a free-form text (C14)
+
+DO_RE = re.compile(r"^\s*do\s+[A-Za-z_]\w*\s*=", re.I)
+ENDDO_RE = re.compile(r"^\s*end\s*do\s*$", re.I)
+MARKS = "&1+$x*"
+
+
+def to_fixed(lines, rng, labelled_do=True, conservative=True):
+    """render lexed free-form lines in fixed source form; returns a Layout (None if a line cannot be converted)"""
+    lay = Layout()
+    # pair DO / END DO for labelled-DO conversion
+    pair = {}
+    stack = []
+    for i, ln in enumerate(lines):
+        if ln.kind != "code":
+            continue
+        if ln.opaque:
+            return None
+        code_txt = ln.raw.split("!")[0] if not any(t[0] == "str" for t in ln.tokens) else "".join(t[1] for t in ln.tokens)
+        if DO_RE.match(code_txt):
+            stack.append(i)
+        elif re.match(r"^\s*(\w+\s*:\s*)?do\b", code_txt, re.I):
+            stack.append(None)
+        elif re.match(r"^\s*end\s*do\b", code_txt, re.I):
+            if stack:
+                o = stack.pop()
+                if o is not None and ENDDO_RE.match(code_txt) and not ln.comment:
+                    pair[o] = i
+    label_of_open, label_of_close = {}, {}
+    dropped = {}  # close line index -> close line index whose CONTINUE also terminates this loop (shared terminal label)
+    shared_close = set()
+    nxt = [10]
+    if labelled_do:
+        code_idx = [k for k, l in enumerate(lines) if l.kind == "code"]
+        nxt_code = {a: b for a, b in zip(code_idx, code_idx[1:])}
+        for o, c in sorted(pair.items(), key=lambda oc: oc[1]):
+            if o in label_of_open:
+                continue
+            if rng.random() < 0.6:
+                lab = nxt[0]
+                nxt[0] += 10
+                label_of_open[o] = lab
+                label_of_close[c] = lab
+                # directly enclosing loops that end on the following code line may share the terminal statement
+                cur = c
+                while rng.random() < 0.5:
+                    outer = [(o2, c2) for o2, c2 in pair.items() if c2 == nxt_code.get(cur) and o2 < o and o2 not in label_of_open
+                             and not any(lines[k].kind != "code" and lines[k].kind != "blank" for k in range(cur + 1, c2))]
+                    if not outer:
+                        break
+                    o2, c2 = outer[0]
+                    label_of_open[o2] = lab
+                    dropped[c2] = c
+                    shared_close.add(c)
+                    cur = c2
+
+    def emit(text, stem):
+        lay.out.append(text)
+        lay.stem.append(set(stem))
+        return len(lay.out) - 1
+
+    for i, ln in enumerate(lines):
+        if ln.kind == "blank":
+            emit("", {ln.no})
+            continue
+        if ln.kind == "pp":
+            emit(ln.raw, {ln.no})
+            continue
+        if ln.kind == "comment":
+            body = ln.raw.lstrip()[1:]
+            if body[:1] in "<>!$":
+                body = " " + body
+            emit(rng.choice(["C", "c", "*", "!", "d", "D"]) + body, {ln.no})
+            continue
+        if i in dropped:
+            # terminated by the shared CONTINUE emitted for the inner loop: that line stands for this END DO as well
+            for n_, st_ in enumerate(lay.stem):
+                if lines[dropped[i]].no in st_ or any(lines[d2].no in st_ for d2 in dropped if dropped[d2] == dropped[i]):
+                    last_n = n_
+            lay.stem[last_n].add(ln.no)
+            continue
+        toks = [(k, s, oc, ln.no) for k, s, oc in ln.tokens]
+        while toks and toks[0][0] == "ws":
+            toks = toks[1:]
+        label = "     "
+        if i in label_of_open:
+            # do v = ...   ->  do <label> v = ...
+            out_t = []
+            done = False
+            for t in toks:
+                out_t.append(t)
+                if not done and t[0] == "id" and t[1].lower() == "do":
+                    out_t.append(("ws", " ", -1, ln.no))
+                    out_t.append(("num", str(label_of_open[i]), -1, ln.no))
+                    done = True
+            toks = out_t
+        if i in label_of_close:
+            lab = str(label_of_close[i])
+            label = (" " * rng.randint(0, 5 - len(lab)) + lab).ljust(5)
+            kw = rng.choice(["continue", "CONTINUE"] if i in shared_close else ["continue", "CONTINUE", "end do", "enddo"])
+            toks = [("id", kw, -1, ln.no)]
+        indent = " " * rng.choice([0, 0, 1, 2, 4])
+        # pieces of at most 72 columns, cut at token boundaries
+        pieces = [[]]
+        width = 6 + len(indent)
+        force_split = rng.random() < 0.25 and (not conservative or (statement_is_safe(ln) and i not in label_of_open and i not in label_of_close))
+        ncode = len([t for t in toks if t[0] != "ws"])
+        cut_after = rng.randint(1, max(1, ncode - 1)) if force_split and ncode >= 3 else None
+        seen_code = 0
+        for t in toks:
+            if t[0] != "ws":
+                seen_code += 1
+            if (width + len(t[1]) > 72 and pieces[-1]) or (cut_after is not None and seen_code == cut_after + 1 and t[0] != "ws" and pieces[-1] and len(pieces) == 1):
+                pieces.append([])
+                width = 6 + 3
+            pieces[-1].append(t)
+            width += len(t[1])
+        comment = ln.comment
+        for pn, piece in enumerate(pieces):
+            if pn == 0:
+                prefix = label + " " + indent
+            else:
+                prefix = "     " + rng.choice(MARKS) + "   "
+                while piece and piece[0][0] == "ws":
+                    piece = piece[1:]
+            t = prefix
+            marks = []
+            for k, s, oc, ol in piece:
+                if k == "id" and oc >= 0:
+                    marks.append(((ol, oc), len(t)))
+                t += s
+            last = pn == len(pieces) - 1
+            if last and comment and len(t) + len(comment) <= 130:
+                t += comment
+            lno = emit(t, {ln.no})
+            for key, col in marks:
+                lay.pos[key] = (lno, col)
+    return lay
